@@ -19,7 +19,7 @@ func init() {
 			}
 			return 60000
 		},
-		Rule: "case = a seeded population history: up to 8 live trees over one store and one node cache (none / ARC(100000) / ARC(3)), ops insert 40 / update 8 / delete 22 / clone-to-new-live 8 / capture-clone 6 / capture-cursor 4 / persist-and-keep-root 7 / load-a-kept-root 5; after EVERY op every captured version (frozen clone, open cursor walked forwards and backwards, kept root re-opened both through the shared cache and with no cache) and every live tree is re-read completely and compared with the model snapshot taken at capture time; non-trivial = >= 3 captured versions alive AND a root re-opened through a cache AND a mutation after a capture; distinct by hash of the op list",
+		Rule: "case = a seeded population history: up to 8 live trees over one store and one node cache (none / ARC(100000) / ARC(3)), ops insert 40 / update 8 / delete 22 / clone-to-new-live 8 / capture-clone 6 / capture-cursor 4 / persist-and-keep-root 7 (some with one failing Store, after which the tree lives on and is persisted again later) / load-a-kept-root 5; after EVERY op every captured version (frozen clone, open cursor walked forwards and backwards, kept root re-opened both through the shared cache and with no cache) and every live tree is re-read completely and compared with the model snapshot taken at capture time; non-trivial = >= 3 captured versions alive AND a root re-opened through a cache AND a mutation after a capture; distinct by hash of the op list",
 		Assumptions: []string{
 			"captures are Clone(), Cursor() and MakeRoot()+kept Root only; a struct copy of a Mast is not a capture and is never made",
 			"store double is healthy",
@@ -306,6 +306,26 @@ func runC02(c *fw.C) {
 			}
 			p.logf("tree#%d capture cursor", l.id)
 			p.addCap(&capture{kind: "cursor", cur: cur, snap: l.md.Clone(), from: l.id})
+		case x < 91 && r.Chance(1, 2): // a persist during which one Store fails: no root is kept, the tree lives on
+			k := r.Range(1, 5)
+			n := 0
+			e.Store.FailStore = func(int, string) error {
+				n++
+				if n == k {
+					return errInjectedLoad
+				}
+				return nil
+			}
+			root, err := l.t.MakeRoot(e.Ctx)
+			e.Store.FailStore = nil
+			c.Obs("persists_with_failing_store", 1)
+			if err != nil {
+				p.logf("tree#%d persist with Store #%d failing -> error", l.id, k)
+				c.Obs("persists_failed_by_injected_fault", 1)
+			} else {
+				p.logf("tree#%d persist (fault not reached) -> kept root %s", l.id, rootStr(root))
+				p.addCap(&capture{kind: "root", root: root, snap: l.md.Clone(), from: l.id})
+			}
 		case x < 95: // persist and keep root
 			root, err := l.t.MakeRoot(e.Ctx)
 			if err != nil {
